@@ -502,6 +502,41 @@ func runC07(r *engine.Run) {
 		}
 	})
 
+	// ---- DeviceTimeAns for durations between two wire steps (1/256 s): "to wire resolution"
+	r.PartDims("values/DeviceTimeAns/between-wire-steps", []string{"seconds:6", "fraction step:0..255", "offset inside the step:7"}, 6*256, func(c *engine.Case) {
+		secs := []uint64{0, 1, 59, 1234567, 1<<32 - 2, 1<<32 - 1}
+		sec, frac := secs[c.Index/256], c.Index%256
+		const step = 3906250
+		for _, off := range []int64{0, 1, step/2 - 1, step / 2, step/2 + 1, step - 2, step - 1} {
+			c.Eval()
+			ns := int64(frac)*step + off
+			d := time.Duration(sec)*time.Second + time.Duration(ns)
+			if d < 0 {
+				continue // beyond time.Duration for the largest second values: not representable
+			}
+			pl := lorawan.DeviceTimeAnsPayload{TimeSinceGPSEpoch: d}
+			b, err := pl.MarshalBinary()
+			if err != nil {
+				c.Outcome("devicetime/between-steps/refused")
+				continue
+			}
+			c.NonTrivial()
+			var back lorawan.DeviceTimeAnsPayload
+			if err := back.UnmarshalBinary(b); err != nil {
+				c.Fail("values/DeviceTimeAns/not-decodable", fmt.Sprintf("%v encodes to %x which does not decode: %v", d, b, err), nil)
+				continue
+			}
+			diff := back.TimeSinceGPSEpoch - d
+			if diff < 0 {
+				diff = -diff
+			}
+			if diff >= step {
+				c.Fail("values/DeviceTimeAns/TimeSinceGPSEpoch/silently-altered", fmt.Sprintf("%v encodes without error to %x, which decodes to %v (%v away; the wire resolution is 1/256 s = %v)", d, b, back.TimeSinceGPSEpoch, diff, time.Duration(step)), nil)
+			}
+			c.Outcome("devicetime/between-steps/within-resolution")
+		}
+	})
+
 	// ---- registry histories (E2)
 	type regOp struct {
 		uplink bool
